@@ -2,7 +2,7 @@
    Definitions only. *)
 From Coq Require Import List NArith ZArith Bool.
 Import ListNotations.
-From BM Require Import Bytes Utf8 Strings Escape Tokenizer Policy Url Style Attrs.
+From BM Require Import Bytes Utf8 Strings Escape Tokenizer Policy Url Style Attrs GenTables.
 Open Scope N_scope.
 Set Implicit Arguments.
 
@@ -16,6 +16,7 @@ Definition normalise (n : bytes) : bytes :=
 
 Definition script_name : bytes := B"script".
 Definition style_name : bytes := B"style".
+Definition is_void (n : bytes) : bool := mem n void_elements.
 Definition is_script_or_style (n : bytes) : bool :=
   let m := normalise n in beqb m script_name || beqb m style_name.
 
@@ -23,7 +24,7 @@ Record lstate := {
   skip : bool;                 (* skipElementContent *)
   skipCount : Z;               (* skippingElementsCount (int64; may go negative) *)
   skipClosing : bool;          (* skipClosingTag *)
-  stack : list bytes;          (* closingTagToSkipStack, top first *)
+  stack : list (bytes * nat);  (* closingTagToSkipStack paired with keptSameNameStack, top first *)
   recent : bytes               (* mostRecentlyStartedToken *)
 }.
 Definition init_state : lstate :=
@@ -57,6 +58,20 @@ Section Loop.
   Definition set_recent (st : lstate) (r : bytes) : lstate :=
     {| skip := skip st; skipCount := skipCount st; skipClosing := skipClosing st; stack := stack st; recent := r |}.
 
+  (* a start tag that is kept: counted when it is nested in a dropped element of the same name *)
+  Definition kept_start (st : lstate) (n : bytes) (c : chunk) : step_out :=
+    let out := if skip st then [] else [c] in
+    if skipClosing st && negb (is_void n) then
+      match stack st with
+      | [] => Panic
+      | (top, k) :: rest =>
+        if beqb top n
+        then Ok {| skip := skip st; skipCount := skipCount st; skipClosing := skipClosing st;
+                   stack := (top, S k) :: rest; recent := recent st |} out
+        else Ok st out
+      end
+    else Ok st out.
+
   (* the part of the EndTagToken case after the skip-stack test *)
   Definition end_tail (st : lstate) (n : bytes) : step_out :=
     match lookup n (elsAndAttrs p) with
@@ -82,21 +97,18 @@ Section Loop.
       if is_script_or_style n && negb (allowUnsafe p) then Ok st [] else
       match element_policies n with
       | None =>
-        let st' := if mem n (elsSkipContent p)
+        let st' := if mem n (elsSkipContent p) && negb (is_void n)
                    then {| skip := true; skipCount := skipCount st + 1; skipClosing := skipClosing st;
                            stack := stack st; recent := recent st |}
                    else st in
         Ok st' space_if_adding
       | Some aps =>
         let a' := clean_attrs n a aps in
-        match a' with
-        | [] =>
-          if negb (allow_no_attrs I p n) then
-            Ok {| skip := skip st; skipCount := skipCount st; skipClosing := true; stack := n :: stack st; recent := recent st |}
-               space_if_adding
-          else Ok st (if skip st then [] else [wr (render1 (TStart n a'))])
-        | _ => Ok st (if skip st then [] else [wr (render1 (TStart n a'))])
-        end
+        if (match a' with [] => true | _ => false end) && negb (allow_no_attrs I p n) then
+          Ok (if is_void n then st
+              else {| skip := skip st; skipCount := skipCount st; skipClosing := true; stack := (n, O) :: stack st; recent := recent st |})
+             space_if_adding
+        else kept_start st n (wr (render1 (TStart n a')))
       end
     | TEnd n =>
       let st := if beqb (recent st) (normalise n) then set_recent st [] else st in
@@ -104,11 +116,18 @@ Section Loop.
       if skipClosing st then
         match stack st with
         | [] => Panic
-        | top :: rest =>
+        | (top, k) :: rest =>
           if beqb top n then
-            Ok {| skip := skip st; skipCount := skipCount st;
-                  skipClosing := match rest with [] => false | _ => true end;
-                  stack := rest; recent := recent st |} space_if_adding
+            match k with
+            | S k' =>
+              (* the end tag of a kept element nested in the dropped element of the same name *)
+              end_tail {| skip := skip st; skipCount := skipCount st; skipClosing := skipClosing st;
+                          stack := (top, k') :: rest; recent := recent st |} n
+            | O =>
+              Ok {| skip := skip st; skipCount := skipCount st;
+                    skipClosing := match rest with [] => false | _ => true end;
+                    stack := rest; recent := recent st |} space_if_adding
+            end
           else end_tail st n
         end
       else end_tail st n
